@@ -686,6 +686,18 @@ V({
     "trusted": ["Inverter's three placeholder callbacks (bodies not verified)"],
 })
 
+# -------------------------------------------------------------------------- V32
+V({
+    "id": "V32",
+    "title": "subst_callbacks: Subst::{fold_free_var_ty, fold_free_var_lifetime, fold_free_var_const, interner} (chalk-ir/src/fold/subst.rs), both branches",
+    "template": "v32_subst.rs",
+    "assumptions": [
+        "V32: BoundVar::{index_if_innermost, shifted_out, shifted_in_from} under the contracts proved by K1 (Kani, full domain); Shift::shifted_in_from on whole terms, GenericArg::data and the bound-variable casts are abstract (uninterpreted)",
+        "V32: precondition: the substitution fits the binder it eliminates (index in range, parameter of the variable's kind - the code panics otherwise) and the depth arithmetic does not overflow",
+    ],
+    "trusted": ["chalk-ir Shift on whole terms (abstract)"],
+})
+
 # ===========================================================================
 GLOBAL_ASSUMPTIONS = [
     "soundness of rustc+Kani's model of core/alloc and of CBMC; soundness of Verus and Z3",
